@@ -232,7 +232,38 @@ def channels(R, prog):
         R.broken.append('C07: no push_backoff<PhotonPause> instantiation found')
 
 
+def turns(R, prog):
+    """K6: the per-slot turn hand-shake of the MPMC ring.  A producer publishes this_turn_write(ticket) only after it saw the mark EQUAL to
+    last_turn_read(ticket); a consumer publishes this_turn_read(ticket) only after it saw the mark EQUAL to this_turn_write(ticket).
+    Leaving the wait on anything weaker than that equality (e.g. `mark != some other value`) lets a thread that is a lap ahead through."""
+    n = 0
+    for nm, awaited, published in (('push', 'last_turn_read', 'this_turn_write'), ('send', 'last_turn_read', 'this_turn_write'),
+                                   ('pop', 'this_turn_write', 'this_turn_read'), ('recv', 'this_turn_write', 'this_turn_read')):
+        for f in insts(prog, 'LockfreeMPMCRingQueue::' + nm):
+            if '::lambda' in f.name:
+                continue
+            G = K.build_f(R, prog, f)
+            res = an.run(G, [an.GuardTracker(lambda k: 'mark' in k)])
+            pub = lambda ev: (K.atomic_op(ev) or (None, None))[1] in ('store', 'operator=', 'exchange') and (K.atomic_op(ev)[0] or '').endswith('mark')
+
+            def handshake(st, ev, awaited=awaited, published=published):
+                m = re.match(r'^(?:this->)?%s\((.+)\)$' % published, ev.arg_show(0) or '')
+                if not m:
+                    return False
+                ticket = m.group(1)
+                mk = K.atomic_op(ev)[0]
+                return any(k.startswith('G:%s.load(' % mk) and re.search(r'\) == (?:this->)?%s\(%s\)=T$' % (awaited, re.escape(ticket)), k) for k in st)
+            k = K.check_at(R, P + '.K6', G, res, pub, handshake,
+                           key_fn=lambda ev, f=f, nm=nm: '%s.K6:%s:turn-handshake-by-equality' % (P, label(f)),
+                           describe=lambda ev, awaited=awaited, published=published: 'mark := %s(ticket) only after mark == %s(same ticket) was observed' % (published, awaited),
+                           min_sites=1, what='mark.store')
+            n += 1
+    if n < 4:
+        R.broken.append('C07.K6: expected the four MPMC operations (push/pop/send/recv), analysed %d' % n)
+
+
 def run(R, prog, tier):
     k1(R, prog)
+    R.guard(turns, R, prog)
     R.guard(publication, R, prog)
     R.guard(channels, R, prog)
